@@ -91,16 +91,10 @@ PDB_ATOM = {"name": (12, 16), "resName": (17, 20), "chainID": (21, 22), "resSeq"
 def job_layout():
     led = Ledger()
     node = source.find_def("iodata.formats.pdb", "_parse_pdb_atom_line")
-    slices = set()
-    for n in ast.walk(node):
-        if isinstance(n, ast.Subscript) and isinstance(n.value, ast.Name) and n.value.id == "line":
-            s = n.slice
-            if isinstance(s, ast.Slice) and isinstance(s.lower, ast.Constant) and isinstance(s.upper, ast.Constant):
-                slices.add((s.lower.value, s.upper.value))
-            elif isinstance(s, ast.Constant):
-                slices.add((s.value, s.value + 1))
+    # column ranges cut out of the line: literal slices, single characters, or module-level `slice(a, b)` constants
+    slices, unresolved = source.constant_slices("iodata.formats.pdb", node, "line")
     want = set(PDB_ATOM.values())
-    led.record("layout@iodata.formats.pdb._parse_pdb_atom_line::every-slice-is-a-column-range-of-the-PDB-v3.3-ATOM-record", "post", "discharged" if slices <= want and {PDB_ATOM[k] for k in ("x", "y", "z", "resSeq", "name", "resName", "element")} <= slices else "refuted", "ast", 0.0, detail=f"slices in the code: {sorted(slices)}; layout: {sorted(want)}", witness={"slices": sorted(slices)})
+    led.record("layout@iodata.formats.pdb._parse_pdb_atom_line::every-slice-is-a-column-range-of-the-PDB-v3.3-ATOM-record", "post", ("unknown" if (unresolved or not slices) else "discharged" if slices <= want and {PDB_ATOM[k] for k in ("x", "y", "z", "resSeq", "name", "resName", "element")} <= slices else "refuted"), "ast", 0.0, detail=f"slices in the code: {sorted(slices)} ({unresolved} not resolved to constants); layout: {sorted(want)}", witness={"slices": sorted(slices)})
     # CONECT: executed on a line whose five fields use all five columns (any column shift mixes digits of two fields)
     pdb = source.import_repo("iodata.formats.pdb")
     line = "CONECT" + "".join(f"{v:5d}" for v in (20001, 31234, 42345, 53456, 64567))
